@@ -105,6 +105,15 @@ Theorem C17_identity : forall c builtins fs0 ops fs f m s' x n t i,
 Proof. exact identity_in_history. Qed.
 Print Assumptions C17_identity.
 
+(* the same for a main model loaded from a string (registered under an invented name by the GlobalRepo providers);
+   histories (run_hist) contain file loads, string loads and rewrites *)
+Theorem C17_identity_string_main : forall c builtins fs0 ops fs fc m s' x n t i,
+  let s := run_hist c fs0 (init_state builtins) ops in
+  load_str fs c fc s = (inr m, s') -> In x (included m s') -> resolve_name c s' x n = Some (t, i) ->
+  t = x \/ In t (cbuiltins c) \/ dget (file_of t s') (allm s') = Some t.
+Proof. exact identity_in_history_str. Qed.
+Print Assumptions C17_identity_string_main.
+
 (* the same for any well-formed state whose registered models' local models are registered *)
 Theorem C17_identity_any_state : forall fs c f s m s' x n t i,
   Stable s -> LocReg s -> load_main fs c f s = (inr m, s') ->
